@@ -35,8 +35,9 @@ CONSTANTS
   EvictH = 120
   MaxDeliver = %(deliver)d
   MaxOther = %(other)d
+  Bursts = {1, 8}
   MaxA = 2
-  MaxB = 2
+  MaxB = %(maxb)d
   EpsMax = %(eps)d
   Emit = %(emit)s
 INVARIANTS %(inv)s
@@ -96,7 +97,7 @@ def run(ctx):
 
     # ---- TLC per distinct pair
     pairs = sorted({(s["tol_s"], s["ttl_h"]) for s in sites})
-    shape = dict(deliver=3, other=1, eps=(1 if quick else 2))
+    shape = dict(deliver=3, other=1, eps=(1 if quick else 2), maxb=(1 if quick else 2))
     replay_in = {"pairs": {}}
     mc_notes = []
     for tol, ttl in pairs:
@@ -136,7 +137,7 @@ def run(ctx):
             raise InfraError("generator emitted nothing for pair %s" % key)
         scs, pred = [], {"accepts0": 0, "accepts1": 0, "accepts2+": 0, "replay_rejected": 0}
         for t in g.traces:
-            scs.append({"ts": t["ts"], "ev": [{"k": 0 if e["k"] == "m" else 1, "t": e["t"], "acc": bool(e["acc"])} for e in t["ev"]]})
+            scs.append({"ts": t["ts"], "ev": [{"k": 0 if e["k"] == "m" else 1, "t": e["t"], "acc": bool(e["acc"]), "n": e["n"]} for e in t["ev"]]})
             a = t["accepts"]
             pred["accepts0" if a == 0 else "accepts1" if a == 1 else "accepts2+"] += 1
         if pred["accepts1"] == 0 or pred["accepts0"] == 0:
@@ -149,10 +150,10 @@ def run(ctx):
         replay_in["pairs"][key] = sp
         ctx.traces_validated(len(scs))
     ctx.note("tlc", mc_notes)
-    ctx.note("bounds", dict(shape, anchors="t1 + a*2*TolS + b*TtlH + e, a,b in 0..2, e in -EpsMax..EpsMax half seconds; first receipt at x.0 or x.5 s",
+    ctx.note("bounds", dict(shape, anchors="t1 + a*2*TolS + b*TtlH + e, a in 0..2, b in 0..maxb, e in -EpsMax..EpsMax half seconds; first receipt at x.0 or x.5 s",
                             offsets="signed timestamp = Unix(first receipt) + {-Tol-1,-Tol,-Tol+1,-1,0,1,Tol-1,Tol,Tol+1} s"))
     ctx.note("exhaustive", True)
-    ctx.note("rule", "every schedule of 3 deliveries of one signed message + <=1 unrelated message over the boundary grid, per site")
+    ctx.note("rule", "every schedule of 3 deliveries of one signed message + <=1 burst of k in {1,8} unrelated messages over the boundary grid, per site; HTTP sites are driven over one keep-alive connection to one long-lived fiber app, replays carry a different header layout")
 
     rin = ctx.path("replay.json")
     json.dump(replay_in, open(rin, "w"))
@@ -167,6 +168,8 @@ def run(ctx):
         if n == 0:
             raise InfraError("site %s replayed nothing" % s["name"])
         ctx.count(nontrivial_keys=["%s#%d" % (s["name"], i) for i in range(n)])
+    if r.get("truncated"):
+        ctx.note("replay_cut_short_after_300_violations_per_site", r["truncated"])
     ctx.note("per_site_deliveries", r["per_site_deliveries"])
     ctx.note("observed_classes", r["classes"])
     for smp in r.get("samples") or []:
